@@ -64,7 +64,7 @@ NestedLiteral(stmts) ==
 KnownFinding0(stmts, clause) ==
   IF clause = "C01_value" /\ Triangle(stmts) THEN "KF-C01-sametype-triangle"
   ELSE IF clause = "C01_value" /\ MergeAndDirect(stmts) THEN "KF-C01-merge-and-direct"
-  ELSE IF clause \in {"C20_exposed", "C20_label"} /\ CseAlias(stmts) THEN "KF-C20-cse-alias"
+  ELSE IF clause \in {"C20_exposed", "C20_label", "R2_exposed"} /\ CseAlias(stmts) THEN "KF-C20-cse-alias"
   ELSE ""
 (* KF-C20-projection-label: the combinator that projects a named value onto another type (r = a | "t") is labelled  *)
 (* with the name of its operand (a), not with the declared name r.                                                     *)
@@ -74,8 +74,17 @@ ProjectionLabel(stmts) == \E i \in Lets(stmts) : ProjOfRef(stmts[i].e)
 
 KnownFinding1(stmts, clause) ==
   IF clause = "C20_label" /\ ProjectionLabel(stmts) THEN "KF-C20-projection-label" ELSE KnownFinding0(stmts, clause)
+(* KF-C03-sametype-reader: an operation combines m.read() with an input of the cell's own signal type (p = m.read() * d,   *)
+(* d and m both signal-M): the data input is wired onto the cell's feedback network, the cell sums it in every tick.       *)
+MemType(stmts, m) == IF \E i \in DOMAIN stmts : stmts[i].k = "mem" /\ stmts[i].n = m
+                     THEN stmts[CHOOSE i \in DOMAIN stmts : stmts[i].k = "mem" /\ stmts[i].n = m].t ELSE ""
+SameTypeReader(stmts) ==
+  \E b \in AllBins(stmts) : \/ (b.l.k = "read" /\ b.r.k = "ref" /\ MemType(stmts, b.l.m) # "" /\ InType(stmts, b.r.n) = MemType(stmts, b.l.m))
+                             \/ (b.r.k = "read" /\ b.l.k = "ref" /\ MemType(stmts, b.r.m) # "" /\ InType(stmts, b.l.n) = MemType(stmts, b.r.m))
+
 KnownFinding(stmts, clause) ==
-  IF clause \in {"C02_bag", "C01_value"} /\ BundleCmpSignal(stmts) THEN "KF-C02-scalar-operand-visible"
+  IF clause \in {"C03_value", "C01_settles"} /\ SameTypeReader(stmts) THEN "KF-C03-sametype-reader"
+  ELSE IF clause \in {"C02_bag", "C01_value"} /\ BundleCmpSignal(stmts) THEN "KF-C02-scalar-operand-visible"
   ELSE IF clause = "C02_bag" /\ NestedLiteral(stmts) THEN "KF-C02-nested-literal"
   ELSE KnownFinding1(stmts, clause)
 =============================================================================
